@@ -306,7 +306,9 @@ def engine_check(prop, tier, seed, work, replay):
         dr.random("fulldeck", 40 if tier == "quick" else 600, seed * 1000 + 81, ["-fulldeck", "-wrong=false"], runbase=3500000)
     # the known-finding shape (F6) is exercised apart so that it cannot mask anything
     dr_kf = None
-    if prop == "C13":
+    if prop in ("C13", "C06", "C01"):
+        # (C06 / C01: a hand in which nobody ever puts a chip in - no forced bets are posted under this structure and every third
+        # hand of the pass is checked down - must still close with a settlement result: seeded change R4c-B)
         dr_kf = Drive(work, binary)
         dr_kf.random("bbonly", T["bbonly_runs"], seed * 1000 + 80, ["-bbonly"], runbase=4000000)
 
